@@ -1,4 +1,4 @@
-// Bounded stand-in (native execution of the real code, NOT a proof) for the monotonicity clause of C18 on the PROVEN
+// Bounded stand-in (native execution of the real code, NOT a proof) for the monotonicity clause of C18 and (last test) the value of the PROVEN
 // security estimate: get_proven_security is floating-point code (log2, powf, sqrt over f64) for which CBMC has no faithful
 // model - the Kani contract air_proven_security_total_contract decides totality for arbitrary libm results, not values.
 // Checked on a grid, for the proven and (redundantly: Kani proves it for all parameters) the conjectured estimate:
@@ -174,4 +174,97 @@ fn proof_options_constructor_bounded() {
         }
     }
     println!("NB-RESULT name=proof_options_constructor_bounded cases={cases}");
+}
+
+// ------------------------------------------------------------------------------------------------
+// The proven estimate against the documented formula (Theorem 8 / eq. 7 of eprint 2022/1216 as laid out in the comments of
+// air/src/proof/mod.rs), written here independently with the same floating-point operations in the same order (the test build
+// uses the std implementations of sqrt / log2 / powf / ceil, as the crate does), so that the comparison is exact:
+//   for a proximity parameter m: rho = 1 / blowup, alpha = (1 + 1/2m) sqrt(rho), rho+ = (n + 2) / (n * blowup),
+//   m+ = ceil(1 / (2 (alpha / sqrt(rho+) - 1))), theta+ = 1 - (1 + 1/2m+) sqrt(rho+),
+//   FRI commit bits = |F| - log2(0.5 (m + 0.5)^7 / rho^1.5 * (n blowup)^2), FRI query bits = grinding - log2((1 - theta+)^queries),
+//   FRI bits = min(commit, query) - 1; L+ = (2 m+ + 1) / (2 sqrt(rho+)); ALI bits = |F| - log2(L+);
+//   DEEP bits = |F| - log2(L+ ((blowup + 1)(n + 1) + (n - 1))); bits(m) = min(FRI, ALI, DEEP) - 1 (0 when below 1, every
+//   term truncated to an integer before the minimum is taken);
+//   the estimate is bits(m*) capped by the collision resistance, m* the best m in 3 <= m < m_max - the upper end EXCLUDED, the
+//   theorem does not cover it - with m_max = min(ceil(n/4 (1 + sqrt(1 + 2/n))), 1000); of equally good m the largest.
+// Bound: fields f62 / f64 / f128 x extension degrees x trace lengths 2^3 .. 2^7, 2^10, 2^16, 2^20 x blowup 2 .. 64 x queries
+// 1 .. 255 (step 1 below 40, then 7) x grinding 0, 10, 32 x collision resistance 96 / 128.
+fn ref_bits_for_m(ext_bits: f64, queries: f64, grinding: f64, blowup: f64, n: f64, m: f64) -> u64 {
+    let rho = 1.0 / blowup;
+    let alpha = (1.0 + 0.5 / m) * rho.sqrt();
+    let max_deg = blowup + 1.0;
+    let lde = n * blowup;
+    let num_openings = 2.0;
+    let rho_plus = (n + num_openings) / lde;
+    let m_plus = (1.0 / (2.0 * (alpha / rho_plus.sqrt() - 1.0))).ceil();
+    let alpha_plus = (1.0 + 0.5 / m_plus) * rho_plus.sqrt();
+    let theta_plus = 1.0 - alpha_plus;
+    let fri_commit = ext_bits - ((0.5 * (m + 0.5).powf(7.0) / rho.powf(1.5)) * lde.powf(2.0)).log2();
+    let fri_query = grinding - (1.0 - theta_plus).powf(queries).log2();
+    let fri = core::cmp::min(fri_commit as u64, fri_query as u64);
+    if fri < 1 {
+        return 0;
+    }
+    let fri = fri - 1;
+    let l_plus = (2.0 * m_plus + 1.0) / (2.0 * rho_plus.sqrt());
+    let ali = -l_plus.log2() + ext_bits;
+    let deep = -(l_plus * (max_deg * (n + num_openings - 1.0) + (n - 1.0))).log2() + ext_bits;
+    let least = core::cmp::min(core::cmp::min(fri, ali as u64), deep as u64);
+    if least < 1 {
+        0
+    } else {
+        least - 1
+    }
+}
+
+fn ref_proven(ext_bits: f64, queries: usize, grinding: u32, blowup: usize, n: usize, cr: u32) -> u32 {
+    let h = n as f64;
+    let m_max = core::cmp::min((0.25 * h * (1.0 + (1.0 + 2.0 / h).sqrt())).ceil() as u64, 1000);
+    let (mut best, mut best_bits) = (0u64, 0u64);
+    for m in 3..m_max {
+        let bits = ref_bits_for_m(ext_bits, queries as f64, grinding as f64, blowup as f64, n as f64, m as f64);
+        if m == 3 || bits >= best_bits {
+            best = m;
+            best_bits = bits;
+        }
+    }
+    let _ = best;
+    core::cmp::min(best_bits, cr as u64) as u32
+}
+
+fn formula_sweep<B: StarkField>(field: &str, exts: &[FieldExtension], cases: &mut u64) {
+    for log_n in [3usize, 4, 5, 6, 7, 10, 16, 20] {
+        let n = 1usize << log_n;
+        for blowup in [2usize, 4, 8, 16, 64] {
+            for &e in exts {
+                let ext_bits = (B::MODULUS_BITS * e.degree()) as f64;
+                for q in (1..40usize).chain((40..=255).step_by(7)) {
+                    for g in [0u32, 10, 32] {
+                        let o = ProofOptions::new(q, blowup, g, e, 4, 7);
+                        *cases += 2;
+                        let got = level::<B, Blake3_256<B>>(&o, n, false);
+                        let want = ref_proven(ext_bits, q, g, blowup, n, 128);
+                        let got96 = level::<B, Blake3_192<B>>(&o, n, false);
+                        let want96 = ref_proven(ext_bits, q, g, blowup, n, 96);
+                        if got != want || got96 != want96 {
+                            fail(format!(
+                                "the proven estimate is {got} (collision resistance 128) / {got96} (96) but the documented formula gives {want} / {want96}: field={field} extension={e:?} trace_len=2^{log_n} blowup={blowup} queries={q} grinding={g}"
+                            ));
+                        }
+                    }
+                }
+            }
+        }
+    }
+}
+
+#[test]
+fn proven_security_formula_bounded() {
+    let mut cases = 0u64;
+    let all = [FieldExtension::None, FieldExtension::Quadratic, FieldExtension::Cubic];
+    formula_sweep::<f62::BaseElement>("f62", &all, &mut cases);
+    formula_sweep::<f64::BaseElement>("f64", &all, &mut cases);
+    formula_sweep::<f128::BaseElement>("f128", &all[..2], &mut cases);
+    println!("NB-RESULT name=proven_security_formula_bounded cases={cases}");
 }
